@@ -110,6 +110,7 @@ class Contract:
         self.ghost_raise = d.get("ghost_raise", {})   # ... and at every exceptional exit
         self.inv_exclude_raise = d.get("inv_exclude_raise", [])
         self.check_frame = d.get("check_frame", True)
+        self.site_asserts_in = d.get("site_asserts_in", {})        # caller contract name -> extra site assertions
         self.site_asserts_for = d.get("site_asserts_for", {})      # caller's receiver class -> extra site assertions
         self.ensures_for_caller = d.get("ensures_for_caller", {})  # caller's receiver class -> extra assumed ensures
         self.requires_for = d.get("requires_for", {})   # receiver class -> extra requires (usage assumptions)
@@ -224,6 +225,12 @@ class State:
         self.trace = []         # branch decisions (lineno, text)
         self.exc = None         # name of the exception class being handled (for bare raise)
         self.guards = []        # local short-circuit guards (for safety obligations in pure subexpressions)
+        self.fresh = []         # objects allocated on this path (pairwise distinct)
+
+    def new_object(self, z):
+        for o in self.fresh:
+            self.assume(z != o)
+        self.fresh = self.fresh + [z]
 
     def fork(self):
         s = State()
@@ -234,6 +241,7 @@ class State:
         s.trace = list(self.trace)
         s.exc = self.exc
         s.guards = list(self.guards)
+        s.fresh = list(self.fresh)
         return s
 
     def snapshot(self):
@@ -388,6 +396,7 @@ class Task:
         co = self.ctx.classes[sort.cls]["callable_of"]
         w = vref(z3.Const(fresh_name(f"wrap.{sort.cls}"), Ref), sort.cls)
         st.assume(w.z != null)
+        st.new_object(w.z)
         link = co["link"]
         if "methods" in co:
             if isinstance(val, VFunc) and val.contract in co["methods"] and val.bound_self is not None:
@@ -1633,6 +1642,10 @@ class Task:
                     res.append((s2, None, e)); continue
                 res += self.call_contract(s2, self.ctx.contracts[cn], None, vals, {}, node)
             return res
+        if isinstance(f, ast.Attribute) and f.attr == "get" and 1 <= len(node.args) <= 2 and not node.keywords:
+            r = self.try_dict_get(node, st)
+            if r is not None:
+                return r
         # list mutators on locals / fields: x.append(v), x.clear()
         if isinstance(f, ast.Attribute) and f.attr in ("append", "clear") and not self.is_noop_call(f, st):
             r = self.try_list_method(node, st)
@@ -1662,6 +1675,27 @@ class Task:
                 pos = vals[:len(node.args)]
                 kw = {k.arg: v for k, v in zip(node.keywords, vals[len(node.args):])}
                 res += self.call_value(s3, fv, pos, kw, node)
+        return res
+
+    def try_dict_get(self, node, st):
+        """d.get(k[, default]) on a map value"""
+        f = node.func
+        res = []
+        for s2, vals, e in self.ev_many([f.value] + list(node.args), st):
+            if e is not None:
+                res.append((s2, None, e)); continue
+            m = vals[0]
+            if not (isinstance(m, V) and isinstance(m.sort, MapSort)):
+                return None
+            k = vals[1]
+            dflt = vals[2] if len(vals) > 2 else VNONE
+            if isinstance(k, V) and isinstance(k.sort, OptSort):
+                has = z3.And(z3.Not(k.comps[0]), map_has(m, coerce(V(k.sort.inner, k.comps[1:]), m.sort.key)))
+                val = map_get(m, coerce(V(k.sort.inner, k.comps[1:]), m.sort.key))
+            else:
+                k = coerce(k, m.sort.key)
+                has, val = map_has(m, k), map_get(m, k)
+            res.append((s2, v_ite(has, val, coerce(dflt, val.sort) if isinstance(dflt, V) else dflt), None))
         return res
 
     def try_list_method(self, node, st):
@@ -1735,6 +1769,7 @@ class Task:
         obj = vref(z3.Const(fresh_name(f"new.{cls}"), Ref), cls)
         st.assume(obj.z != null)
         st.assume(FRESH(obj.z))
+        st.new_object(obj.z)
         res = []
         for s2, v, e in self.call_contract(st, c, obj, pos, kw, node):
             res.append((s2, obj if e is None else None, e))
@@ -1802,7 +1837,7 @@ class Task:
         where = f"{self.label}: call {c.name} (line +{ln})"
         for k, t in list(c.requires.items()) + list(c.requires_for.get(self_cls, {}).items()):
             self.oblige(st, f"{where} requires {k}", self.spec_bool(st, t, env, None, self_cls), "requires", getattr(node, "lineno", None))
-        for k, t in list(c.site_asserts.items()) + list(c.site_asserts_for.get(self.receiver, {}).items()):
+        for k, t in list(c.site_asserts.items()) + list(c.site_asserts_for.get(self.receiver, {}).items()) + list(c.site_asserts_in.get(self.contract.name, {}).items()):
             self.oblige(st, f"{k} @ {where}", self.spec_bool(st, t, env, self.old, self_cls), "site", getattr(node, "lineno", None))
         for ox in c.assert_inv_of:
             o = self.spec(st, ox, env, None, self_cls)
